@@ -4,6 +4,7 @@ import (
 	"context"
 	"fmt"
 	"math/big"
+	"os"
 	"testing"
 	"time"
 
@@ -41,6 +42,7 @@ type c20Tx struct {
 	amount     *big.Int
 	live       []*c20Frame
 	hash       common.Hash
+	gen        *c20Gen
 }
 
 func c20EventData(etrog bool, index *big.Int, originNet uint32, originAddr, destAddr common.Address, amount *big.Int) []byte {
@@ -78,6 +80,7 @@ func TestC20E2E(t *testing.T) {
 		var txs []*c20Tx
 		nBlocks := ch.Int(1, 12, "nBlocks")
 		seq := 0
+		blockLogs := map[uint64][]types.Log{}
 		for b := 1; b <= nBlocks; b++ {
 			var logs []types.Log
 			for i, n := 0, choose.Pick(ch, []int{0, 1, 1, 2}, "claimsInBlock"); i < n; i++ {
@@ -114,12 +117,69 @@ func TestC20E2E(t *testing.T) {
 				logs = append(logs, types.Log{Address: c20Bridge, Topics: []common.Hash{sig}, TxHash: tx.hash, Index: uint(i),
 					Data: c20EventData(tx.etrog, tx.index, tx.originNet, tx.originAddr, tx.destAddr, tx.amount)})
 				chain.SetTrace(tx.hash, root)
+				tx.gen = g
 				txs = append(txs, tx)
 			}
 			chain.Extend(logs)
+			blockLogs[uint64(b)] = logs
 		}
 		tip := chain.Tip()
 		chain.SetPointers(tip, tip, tip)
+		// re-execution plan: the chain replaces its blocks from one claim transaction's block on, while the node is in the
+		// middle of downloading that range; the same transactions (same hashes, same events) are included again, but one of
+		// them executes differently now - another call of it is the live matching one. The node notices the changed block
+		// hash in its own cross-check and downloads the range again; what it records must belong to the new execution.
+		var reexec *c20Tx
+		var altRoot *c20Frame
+		var altLive []*c20Frame
+		if len(txs) >= 2 && ch.Int(0, 1, "reexecutedTransaction") == 0 {
+			cand := txs[ch.Int(0, len(txs)-2, "reexecWhich")]
+			g := &c20Gen{ch: ch, seed: cand.gen.seed ^ 0x5a, etrogEv: cand.etrog, target: cand.index}
+			root := g.frame(ch.Int(0, 4, "depth"), true)
+			var live []*c20Frame
+			decoys, maxDepth := 0, 0
+			c20Live(root, g.target, false, &live, &decoys, 0, &maxDepth)
+			if len(live) == 0 {
+				root.Error, root.reverted = nil, false
+				cl := g.claim()
+				cl.Etrog, cl.Index = g.etrogEv, new(big.Int).Set(g.target)
+				g.frames++
+				root.Calls = append(root.Calls, &c20Frame{From: common.BytesToAddress([]byte{0xf2, byte(g.frames)}), To: c20Bridge, Value: "0x0", claim: cl, Input: c20Pack(cl)})
+				live = nil
+				c20Live(root, g.target, false, &live, &decoys, 0, &maxDepth)
+			}
+			reexec, altRoot, altLive = cand, root, live
+			// nothing from that block on is final yet
+			chain.SetPointers(tip, tip, cand.block-1)
+		}
+		reexecuted, reexecFired := false, false
+		if reexec != nil {
+			var curFrom, curTo uint64
+			traced := false
+			chain.Hook = func(c *fakechain.Chain, call fakechain.Call) error {
+				switch {
+				case reexecuted:
+				case call.Method == "FilterLogs":
+					curFrom, curTo, traced = call.From, call.To, false
+				case call.Method == "debug_traceTransaction" && call.Tx == reexec.hash:
+					traced = true
+				case call.Method == "HeaderByNumber" && call.Tag == "" && traced && call.Num > reexec.block && curFrom <= reexec.block && call.Num <= curTo:
+					var suffix [][]types.Log
+					for n := reexec.block; n <= tip; n++ {
+						suffix = append(suffix, blockLogs[n])
+					}
+					c.ForkLocked(reexec.block, suffix)
+					c.SetTraceLocked(reexec.hash, altRoot)
+					// the new fork is one (empty) block longer and final: a node that saw the old tip as not final yet moves
+					// its last-processed marker only with a further block
+					nt := c.ExtendLocked(nil)
+					c.SetPointersLocked(nt, nt, nt)
+					reexec.live = altLive
+					reexecuted, reexecFired = true, true
+				}
+				return nil
+			}
+		}
 		path, clean := tmpDB("c20e2e")
 		defer clean()
 		ctx, cancel := context.WithCancel(bg)
@@ -141,13 +201,41 @@ func TestC20E2E(t *testing.T) {
 		// the whole chain is finalized, so the syncer records its progress up to the tip; a syncer that keeps asking for
 		// the same traces without getting anywhere is refusing an event whose transaction has a live matching call
 		dl := time.Now().Add(180 * time.Second)
+		planOpen := reexec != nil
 		for {
-			if n, err := s.GetLastProcessedBlock(bg); err == nil && n >= tip {
+			n, err := s.GetLastProcessedBlock(bg)
+			if err == nil && n >= chain.Tip() {
 				break
+			}
+			if planOpen && ((err == nil && n >= reexec.block) || chain.Count("FilterLogs") > 40) {
+				// the moment for the re-execution has passed (or never came): finality catches up, the plan expires
+				chain.Lock()
+				fired := reexecFired
+				reexecuted = true
+				if !fired {
+					nt := chain.ExtendLocked(nil)
+					chain.SetPointersLocked(nt, nt, nt)
+				}
+				chain.Unlock()
+				planOpen = false
 			}
 			if n := chain.Count("debug_traceTransaction"); n > 200+20*len(txs) {
 				lp, _ := s.GetLastProcessedBlock(bg)
 				rt.Fatalf("[end to end] the node keeps refusing a claim event although its transaction has a live matching call: %d trace requests for %d claim transactions, last processed block %d of %d", n, len(txs), lp, tip)
+			}
+			if os.Getenv("VERIF_DEBUG_C20") != "" && time.Now().After(dl.Add(-175*time.Second)) {
+				chain.Lock()
+				var rb uint64
+				if reexec != nil {
+					rb = reexec.block
+				}
+				msg := fmt.Sprintf("DEBUG stuck: n=%d err=%v tip=%d fired=%v reexecBlock=%d fin=%d latest=%d", n, err, tip, reexecFired, rb, chain.FinalizedLocked(), chain.LatestLocked())
+				hist := chain.History
+				chain.Unlock()
+				for _, h := range hist[max(0, len(hist)-25):] {
+					msg += fmt.Sprintf("\n  %+v", h)
+				}
+				rt.Fatalf("%s", msg)
 			}
 			if time.Now().After(dl) {
 				rt.Fatalf("INCONCLUSIVE: syncer did not reach block %d within 180s", tip)
@@ -182,6 +270,9 @@ func TestC20E2E(t *testing.T) {
 		}
 		rec.Case(len(txs) >= 2, fmt.Sprintf("e2e|%d|%d", nBlocks, len(txs)))
 		rec.Class("end_to_end_cases")
+		if reexecFired {
+			rec.Class("end_to_end_cases_with_a_transaction_re_executed_on_a_new_fork_during_the_download")
+		}
 		rec.ClassN("end_to_end_claims", len(txs))
 	})
 }
